@@ -99,6 +99,10 @@ impl TimedCache {
                         .map(|kv| (kv.key().clone(), kv.value().expiration))
                         .collect::<Vec<_>>();
                     keys_and_expiration.sort_by(|(_, a), (_, b)| a.cmp(b));
+                    // verification hook H3: entries sharing an expiration are otherwise evicted
+                    // in DashMap iteration order, which is randomised per process
+                    #[cfg(akd_verif)]
+                    keys_and_expiration.sort_by(|(ka, a), (kb, b)| a.cmp(b).then_with(|| ka.cmp(kb)));
                     // take `num_clean` old entries and remove them
                     for key in keys_and_expiration
                         .into_iter()
